@@ -19,6 +19,8 @@ CLAIMS = {
  "C05": ("TLC validates every decode_ct/decode32/decode/decode_reduce/encode call recorded over all lengths 0..3*ENC_LEN+1 and boundary contents against the codec operators of PrimeField.tla.", TV),
  "C11": ("TLC checks the relational split contract (k*c1'=c0' mod q with the documented correction, (0,1) for zero) on every recorded split_vartime call, including fraction-shaped and unbalanced scalars; non-termination is observed by a per-call watchdog and rejected as a non-transition.", "TLA+ relational spec + TLC trace validation; watchdog for termination"),
  "C12": ("TLC validates division, inversion, batch inversion, Legendre symbol and square roots (relationally) of every recorded call against PrimeField.tla on GCD-pathological divisors (2^s, q-2^s, t*2^s sweep, shared top bits) in all representations.", TV),
+ "C16": ("TLC model-checks the key-counter design (LmsGen.tla: no leaf reuse, strictly increasing indices, state advanced before a signature is visible, termination) over every interleaving of sign / RNG-failure / exhausted-sign for a small tree, enumerates the histories for the real height with an RNG failure injected at every call position, and validates the replayed traces (leaf index of every signature, state after every call, verification accepts exactly the issued pairs; selected signatures recomputed with RFC 8554 in TLC).", "TLC model checking of the key state machine + TLC-generated histories replayed into the code + TLC trace validation"),
+ "C18": ("The field, group, hash and signature programs are re-executed under each non-default build configuration that compiles on this host and validated by TLC against the same TLA+ specification, so that every specified output equals one value whatever the backend.", TV),
  "C17": ("TLC enumerates every allowed call history (depth 3, 2 instances, symbolic length classes) of the HashGen.tla API model; the histories are replayed into the real hash types and TLC recomputes every digest / SHAKE chunk from the abstract message with SHA2.tla / Keccak.tla / Blake2s.tla (TraceHash.tla).", "TLC-generated behaviours replayed into the code + TLC trace validation against TLA+ hash specifications"),
  "C20": ("TLC validates set_cond/select/cswap/equals/iszero events between registers in different representations against the Select semantics in TraceField.tla.", TV),
 }
